@@ -462,3 +462,100 @@ def rule_apply_examines_whole_plan(ctx, rid, rr):
                    "the plan is pruned before the stale check: nodes outside the pruned part are neither examined nor covered by the "
                    "up-front cycle check", norm(c)[:100])
     ctx.ob(rid, f"{ap.short}/stale-check-on-whole-plan", True, loc(ap, sc[0]), "examined the calls preceding the stale check")
+
+
+# ------------------------------------------------------------------------------------------------ stale totals, evaluated
+def rule_stale_totals(ctx, rid, rr, stale_tot):
+    """The stale-section totals and the stale check's reports, evaluated on one abstract plan: calls a1, a2 (same scope, same
+    kind of store), a3 (same scope, no store), b (other scope, store) and a stored literal.  The totals function must announce
+    exactly one total per distinct reported scope, with the multiplicity of that scope among the Call nodes, and the stale
+    callback must report each call under the scope its total was announced for."""
+    m = ctx.model
+    stale_f = rr.stale
+    CallC, LitC = m.one_class("Call", "P4"), m.one_class("Literal", "P4")
+    RegC, RegValC = m.one_class("Registry", "P4"), m.one_class("RegistryValue", "P4")
+    engine_names, pruner_names = set(), set()
+    for c in stale_f.own_calls():
+        fs = m.callee_funcs(stale_f, c)
+        if rr.er.engine in fs and isinstance(c.func, ast.Name):
+            engine_names.add(c.func.id)
+        if any(f.module.name.endswith("pruning") for f in fs) and isinstance(c.func, ast.Name):
+            pruner_names.add(c.func.id)
+    if len(engine_names) != 1:
+        raise AnalysisError("P4: engine call in the stale check not found")
+
+    def mk_call(name, scope, fn):
+        return Obj(CallC, {"scope": scope, "fn": fn, "stack_frame": None}, name=name)
+    f1, f2 = Stub("f1", _noop), Stub("f2", _noop)
+    a1, a2, a3, b = mk_call("a1", ("A",), f1), mk_call("a2", ("A",), f1), mk_call("a3", ("A",), f1), mk_call("b", ("B",), f2)
+    lit = Obj(LitC, {"value": 7, "scope": ()}, name="lit")
+    nodes = [a1, lit, a2, a3, b]
+    graph = Obj(None, {"predecessors": Stub("predecessors", lambda n: []), "nodes": Stub("nodes", lambda: list(nodes))}, name="graph")
+    plan = Obj(None, {"graph": graph}, name="plan")
+    storecls = Obj(None, {"__qualname__": "Store", "__module__": "x", "__name__": "Store"}, name="StoreClass")
+
+    def mk_store():
+        st = Obj(None, {"get_modified_time": Stub("get_modified_time", lambda: None)}, name="store")
+        st.attrs["__class__"] = storecls
+        return st
+    mapping = {n: Obj(RegValC, {"value_store": mk_store(), "is_source": False, "stack_frame": None}) for n in (a1, a2, b, lit)}
+    registry = Obj(RegC, {"mapping": mapping}, name="registry")
+    totals, running = [], []
+    cur = []
+
+    def inc_total(*a, **k):
+        totals.append((k.get("section"), k.get("scope"), k.get("amount")))
+
+    def inc_running(*a, **k):
+        running.append((cur[-1] if cur else None, k.get("section"), k.get("scope")))
+    observer = Obj(None, {"increment_running": Stub("increment_running", inc_running), "increment_total": Stub("increment_total", inc_total),
+                          "increment_completed": Stub("increment_completed", _noop), "increment_failed": Stub("increment_failed", _noop)}, name="observer")
+    import collections as _c
+    interp = None
+
+    def engine_stub(g, fn, **kw):
+        for n in nodes:
+            cur.append(n)
+            interp.call(fn, [n], {})
+            cur.pop()
+        return None
+    stubs = {n: Stub(n, engine_stub) for n in engine_names}
+    for n in pruner_names:
+        stubs[n] = Stub(n, lambda p, **kw: p)
+    stubs["fully_qualified_name"] = Stub("fqn", lambda x: ("fqn", getattr(x, "name", None) or repr(x)))
+    interp = Interp(m, stubs=stubs, ext={"builtins.type": lambda x: interp.class_val(x.cls) if isinstance(x, Obj) and x.cls else type(x),
+                                         "collections.Counter": lambda it=(): _c.Counter(list(it))})
+    params = {"plan": plan, "registry": registry, "progress_observer": observer}
+    try:
+        args = [params[p] for p in stale_tot.pos_params if p in params]
+        if len(args) != len([p for p in stale_tot.pos_params if p not in stale_tot.defaults]):
+            raise AnalysisError(f"unexpected parameters of {stale_tot.qualname}: {stale_tot.pos_params}")
+        interp.call_func(stale_tot, None, args, {})
+    except AbsRaise as e:
+        raise AnalysisError(f"abstract evaluation of {stale_tot.qualname} raised {e.value!r}")
+    kw = {"plan": plan, "registry": registry, "retry": Stub("retry", lambda f: f), "max_workers": None, "fresh_time": None,
+          "progress_observer": observer}
+    for p in stale_f.params:
+        if p not in kw:
+            raise AnalysisError(f"P4: unexpected parameter {p} of the stale check")
+    try:
+        interp.call_func(stale_f, None, [kw[p] for p in stale_f.pos_params], {p: kw[p] for p in stale_f.kwonly_params})
+    except AbsRaise as e:
+        raise AnalysisError(f"abstract evaluation of {stale_f.qualname} raised {e.value!r}")
+    rep = {}
+    for n, sec, sc in running:
+        rep.setdefault(n, []).append((sec, sc))
+    ok_rep = set(rep) == {a1, a2, a3, b} and all(len(v) == 1 and v[0][0] == "stale" for v in rep.values())
+    ctx.ob(rid, f"{rr.stalecb.short}/reports-calls-only", ok_rep, loc(rr.stalecb),
+           "exactly the Call nodes are reported, once each, in section 'stale' (evaluated)" if ok_rep else
+           f"on a plan with four calls and a stored literal the stale check reported {[(getattr(n, 'name', n), v) for n, v in rep.items()]}")
+    want = _c.Counter(v[0][1] for v in rep.values()) if ok_rep else None
+    got = {}
+    dup = False
+    for sec, sc, am in totals:
+        dup = dup or sc in got
+        got[sc] = am
+    ok = ok_rep and not dup and all(t[0] == "stale" for t in totals) and got == dict(want)
+    ctx.ob(rid, f"{stale_tot.short}~{rr.stalecb.short}", bool(ok), loc(stale_tot),
+           "each scope's announced total equals the number of calls the stale check reports under that scope (evaluated: 2, 1, 1)" if ok else
+           f"totals and reports disagree per scope: announced {totals}, reported {sorted((getattr(n, 'name', ''), v[0][1]) for n, v in rep.items()) if ok_rep else rep}")
